@@ -1961,6 +1961,14 @@ class CxxParser:
 
         return dtype
 
+    def _parse_fn_requires(self, fn: Function) -> None:
+        rtok = self.lex.token_if("requires")
+        if rtok:
+            # requires on a function must always be accompanied by a template
+            if fn.template is None:
+                raise self._parse_error(rtok)
+            fn.raw_requires = self._parse_requires(rtok)
+
     def _parse_fn_end(self, fn: Function) -> None:
         """
         Consumes the various keywords after the parameters in a function
@@ -1977,18 +1985,17 @@ class CxxParser:
             if otok:
                 toks = self._consume_balanced_tokens(otok)[1:-1]
             fn.noexcept = self._create_value(toks)
-        else:
-            rtok = self.lex.token_if("requires")
-            if rtok:
-                # requires on a function must always be accompanied by a template
-                if fn.template is None:
-                    raise self._parse_error(rtok)
-                fn.raw_requires = self._parse_requires(rtok)
+
+        # the requires-clause follows the exception specification and the
+        # trailing return type; it is also accepted in front of the latter
+        self._parse_fn_requires(fn)
 
         if self.lex.token_if("ARROW"):
             return_type = self._parse_trailing_return_type(fn.return_type)
             fn.has_trailing_return = True
             fn.return_type = return_type
+            if fn.raw_requires is None:
+                self._parse_fn_requires(fn)
 
         if self.lex.token_if("{"):
             self._discard_contents("{", "}")
